@@ -2,15 +2,16 @@
    Proved: (1) the shard matcher partitions the series, for every hash function;
    (2) the analyzer's answer is compatible with every grouping construct, for every query AST;
    (3) for the mini-PromQL with a denotational semantics in Model/C44.v — vector selectors with
-   = / != matchers and sum / count / min / max aggregations with by / without, nested to any
-   depth — C44_sound: whenever the analyzer says shardable (and the metric name is treated as
+   = / != matchers, sum / count / min / max aggregations with by / without and one-to-one
+   + - * with on / ignoring, nested to any depth — C44_sound: whenever the analyzer says shardable (and the metric name is treated as
    below), evaluating the query on every shard and concatenating the results gives the
    unsharded result up to order, for every hash function, shard count and data set.
    Refuted: without(...) aggregations drop the metric name although the analyzer does not
    count __name__ among their labels; with series of two metric names the sharded result
    differs (C44_without_drops_name_refuted; reproduced on the real engine: corpus/C44).
-   partial: binary operations, functions and the other aggregations are outside the
-   semantics; for them only (1) and (2) are proved. *)
+   partial: functions, group_left/right, comparison and set operators and the other
+   aggregations are outside the semantics (only (1) and (2) are proved for them); when the
+   unsharded evaluation is an engine error nothing is claimed. *)
 From Coq Require Import ZArith NArith List Bool Permutation.
 Import ListNotations.
 From Verif Require Import Lib.Corr Gen.C44 Model.C44 Proofs.C44 Proofs.C44_sound.
@@ -58,30 +59,33 @@ Theorem C44_analyze_pred : forall e by_ S, analyze e = St by_ S ->
 Proof. exact analyze_pred. Qed.
 Print Assumptions C44_analyze_pred.
 
-(* ---- stage 2: semantics and soundness for selector + aggregation programs ---- *)
+(* ---- stage 2: semantics and soundness for selectors, aggregations and binary operations ---- *)
 
-(* key lemma: the result series of e computed on shard i are exactly the result series of e on
-   all data that belong to shard i (as lists, not only as sets) *)
-Theorem C44_shard_commutes : forall (H : str -> N) by_ set n e, sound_for by_ set e = true -> forall D i,
-  qeval e (filter (in_shard H by_ set n i) D) = filter (in_shard H by_ set n i) (qeval e D).
+(* key lemma: when the evaluation of e on all data succeeds with V, its evaluation on shard i
+   succeeds with exactly the samples of V that belong to shard i (as lists, not only as sets) *)
+Theorem C44_shard_commutes : forall (H : str -> N) by_ set n e, sound_for by_ set e = true -> forall D V i,
+  qeval e D = Some V ->
+  qeval e (filter (in_shard H by_ set n i) D) = Some (filter (in_shard H by_ set n i) V).
 Proof. exact shard_commutes. Qed.
 Print Assumptions C44_shard_commutes.
 
-(* C44_sound for selector + aggregation trees: if the analyzer (on the query as it sees it)
-   answers "shard by / without set", and the metric name is on the right side of the sharding
-   set (never a by-sharding label when the query has a without-aggregation; always a
-   without-sharding label), then the concatenated per-shard results are a permutation of the
-   unsharded result — for every hash, every n >= 1, every data set *)
-Theorem C44_sound_selectors_aggregations : forall (H : str -> N) n e D by_ set, (0 < n)%N ->
-  analyze (erase e) = St by_ set -> name_ok by_ set e = true ->
-  Permutation (sharded H by_ set n e D) (qeval e D).
+(* C44_sound for the mini-PromQL (selectors; sum/count/min/max by/without; one-to-one + - *
+   with on/ignoring; nested to any depth): if the analyzer (on the query as it sees it) answers
+   "shard by / without set", the metric name is on the right side of the sharding set (not a
+   by-sharding label when some node drops the name; always a without-sharding label), and the
+   unsharded evaluation succeeds with V, then every shard succeeds and the concatenated shard
+   results are a permutation of V — for every hash, every n >= 1, every data set.
+   partial: when the unsharded evaluation is an error nothing is claimed (a shard whose left
+   operand is empty skips the duplicate check, so the sharded run may succeed). *)
+Theorem C44_sound : forall (H : str -> N) n e D V by_ set, (0 < n)%N ->
+  analyze (erase e) = St by_ set -> name_ok by_ set e = true -> qeval e D = Some V ->
+  exists W, sharded H by_ set n e D = Some W /\ Permutation W V.
 Proof. exact sound. Qed.
-Print Assumptions C44_sound_selectors_aggregations.
+Print Assumptions C44_sound.
 
 Theorem C44_sound_pred : forall (H : str -> N) n e D by_ set tbl, (0 < n)%N ->
   analyze (erase e) = St by_ set -> name_ok by_ set e = true ->
-  pred_ok (CEval e D n by_ set tbl (qeval e D)
-             (map (fun i => qeval e (filter (in_shard H by_ set n (N.of_nat i)) D)) (seq 0 (N.to_nat n)))) = true.
+  pred_ok (CEval e D n by_ set tbl (qeval e D) (shard_results H by_ set n e D)) = true.
 Proof. exact sound_pred. Qed.
 Print Assumptions C44_sound_pred.
 
@@ -103,9 +107,9 @@ Definition w_H (b : str) : N := fold_right N.add 0%N b.
 
 Theorem C44_without_drops_name_refuted :
   analyze (erase w_q) = St false [[97%N]] /\ shardable (analyze (erase w_q)) = true
-  /\ qeval w_q w_D = [([(w_job, w_j)], 3%Z)]
-  /\ sharded w_H false [[97%N]] 2 w_q w_D = [([(w_job, w_j)], 1%Z); ([(w_job, w_j)], 2%Z)]
-  /\ ~ Permutation (sharded w_H false [[97%N]] 2 w_q w_D) (qeval w_q w_D).
+  /\ qeval w_q w_D = Some [([(w_job, w_j)], 3%Z)]
+  /\ sharded w_H false [[97%N]] 2 w_q w_D = Some [([(w_job, w_j)], 1%Z); ([(w_job, w_j)], 2%Z)]
+  /\ ~ Permutation [([(w_job, w_j)], 1%Z); ([(w_job, w_j)], 2%Z)] [([(w_job, w_j)], 3%Z)].
 Proof.
   split; [vm_compute; reflexivity|]. split; [vm_compute; reflexivity|].
   split; [vm_compute; reflexivity|]. split; [vm_compute; reflexivity|].
@@ -143,5 +147,15 @@ Example C44_sound_nonvacuous :
   /\ qeval e [([(s_name, [109;49]%N); (la, [120%N]); (w_job, w_j); (lpod, [120%N])], 5%Z);
               ([(s_name, [109;50]%N); (la, [120%N]); (w_job, w_j); (lpod, [122%N])], 7%Z);
               ([(s_name, [109;49]%N); (la, [121%N]); (w_job, w_j)], 1%Z)]
-     = [([(la, [120%N])], 2%Z); ([(la, [121%N])], 1%Z)].
+     = Some [([(la, [120%N])], 2%Z); ([(la, [121%N])], 1%Z)].
+Proof. vm_compute. repeat split; reflexivity. Qed.
+
+(* sum by (a) ({__name__="m1"}) * on(a) sum by (a) ({__name__="m2"}): hypotheses of C44_sound hold *)
+Example C44_sound_bin_nonvacuous :
+  let sel := fun m => QSel [MEq s_name m] in
+  let e := QBin BMul true [la] (QAgg ASum false [la] (sel [109;49]%N)) (QAgg ASum false [la] (sel [109;50]%N)) in
+  analyze (erase e) = St true [la] /\ name_ok true [la] e = true
+  /\ qeval e [([(s_name, [109;49]%N); (la, [120%N])], 5%Z); ([(s_name, [109;50]%N); (la, [120%N])], 7%Z);
+              ([(s_name, [109;49]%N); (la, [121%N])], 2%Z)]
+     = Some [([(la, [120%N])], 35%Z)].
 Proof. vm_compute. repeat split; reflexivity. Qed.
